@@ -522,6 +522,28 @@ fn search(oracle: &str, seed: u64) -> Outcome {
                 None
             }
             // ------------------------------------------------ C14: scaling by a double (reference: the same IEEE operation done here, then classified and truncated)
+            "fraction_round" => {
+                domain = "every 7-digit fraction; every 6-digit prefix x 8- and 9-digit tails around the rounding decisions; parsed with FF9 as Time";
+                exhaustive = false;
+                let tails8: [i64; 6] = [0, 44, 45, 49, 50, 99];
+                let tails9: [i64; 8] = [0, 444, 445, 449, 450, 499, 500, 999];
+                let check = |text: String, want: i64, n_eval: &mut u64| -> Option<Found> {
+                    *n_eval += 1;
+                    let full = format!("00:00:00.{}", text);
+                    let exp = format!("Ok(usecs={})", want);
+                    let act = match Time::parse(&full, "HH24:MI:SS.FF9") { Ok(v) => format!("Ok(usecs={})", v.usecs()), Err(_) => "Err(..)".to_string() };
+                    if act != exp { Some(Found { input: format!("Time::parse({:?}, \"HH24:MI:SS.FF9\")", full), expected: exp, actual: act }) } else { None }
+                };
+                for v in (0..10_000_000i64).step_by(1) {
+                    if v % 7 != 0 && v % 10 != 5 && v % 10 != 4 { continue; }
+                    if let Some(f) = check(format!("{:07}", v), (v + 5) / 10, &mut n_eval) { return Some(f); }
+                }
+                for p in (0..1_000_000i64).step_by(37).chain([499_999, 999_998, 999_999]) {
+                    for &t in &tails8 { if let Some(f) = check(format!("{:06}{:02}", p, t), (p * 100 + t + 50) / 100, &mut n_eval) { return Some(f); } }
+                    for &t in &tails9 { if let Some(f) = check(format!("{:06}{:03}", p, t), (p * 1000 + t + 500) / 1000, &mut n_eval) { return Some(f); } }
+                }
+                None
+            }
             "scale_f64" => {
                 domain = "IntervalDT / IntervalYM / Time x doubles {0, -0, subnormal, 1e-17, 1/3, 0.5, 1, 1.5, 3, 1e10, 1e300, inf, nan and negatives}: mul_f64 and div_f64 against classify(trunc(IEEE op))";
                 exhaustive = false;
@@ -856,7 +878,7 @@ fn esc(s: &str) -> String { s.replace('\\', "\\\\").replace('"', "\\\"") }
 fn main() {
     let args: Vec<String> = std::env::args().collect();
     if args.len() >= 2 && args[1] == "list" {
-        println!("date_extract date_from_ymd date_from_days date_add_sub_days date_day_of_week date_add_months ts_add_months last_day_of_month date_trunc date_round ts_trunc ts_round od_trunc od_round ts_split time_tuple time_add_interval interval_ctor od_from_timestamp od_add_days ts_add_days naive_carry parse_grid format_grid and_hms linear_arith mixed_cmp second_accessor scale_f64");
+        println!("date_extract date_from_ymd date_from_days date_add_sub_days date_day_of_week date_add_months ts_add_months last_day_of_month date_trunc date_round ts_trunc ts_round od_trunc od_round ts_split time_tuple time_add_interval interval_ctor od_from_timestamp od_add_days ts_add_days naive_carry parse_grid format_grid and_hms linear_arith mixed_cmp second_accessor scale_f64 fraction_round");
         return;
     }
     if args.len() >= 3 && args[1] == "search" {
